@@ -128,4 +128,4 @@ def correspondence(ctx):
                              {"range_class": rc.__name__, "text": text, "clause": why, "versions_whose_text_does_not_roundtrip": sorted(weak),
                               "python": "from univers.version_range import VersionRange as R; r=R.from_string(%r); print(str(r))" % text},
                              region=region, spec="round trip")
-    ctx.sample({"text": "vers:npm/>=1.0.0|<2.0.0", "roundtrip": str(VersionRange.from_string("vers:npm/>=1.0.0|<2.0.0"))})
+    ctx.sample({"text": "vers:npm/>=1.0.0|<2.0.0", "roundtrip": common.safe(lambda: VersionRange.from_string("vers:npm/>=1.0.0|<2.0.0"))})
